@@ -976,9 +976,13 @@ impl<D: Distance> Writer<D> {
         to_insert: &RoaringBitmap,
         frozen_reader: &FrozzenReader<D>,
     ) -> Result<Vec<(TmpNodesReader, RoaringBitmap)>> {
+        #[cfg(arroy_verif)]
+        crate::verif::enter_with("tree-tasks-begin", roots.len() as u64);
         repeatn(rng.next_u64(), roots.len())
             .zip(roots)
             .map(|(seed, root)| {
+                #[cfg(arroy_verif)]
+                crate::verif::enter_with("tree-task-start", *root as u64);
                 opt.cancelled()?;
                 tracing::debug!("started updating tree {root:X}...");
                 let mut rng = R::seed_from_u64(seed.wrapping_add(*root as u64));
@@ -999,6 +1003,8 @@ impl<D: Distance> Writer<D> {
                 )?;
 
                 tracing::debug!("finished updating tree {root:X}");
+                #[cfg(arroy_verif)]
+                crate::verif::enter_with("tree-task-end", *root as u64);
                 Ok((tmp_descendant.into_bytes_reader()?, large_descendants))
             })
             .collect()
